@@ -204,7 +204,17 @@ pub fn eval(ctx: &Ctx, case: &Case) -> Verdict {
         Case::Negative { parts, boundary, what, cut } => {
             if contains_sub(&data_of(parts), boundary.as_bytes()) { return Verdict::Discard; }
             let full = match FormMultipartData::generate(to_parts(parts), boundary) { Ok(b) => b, Err(_) => return Verdict::Discard };
-            let (bytes, class, sig): (Vec<u8>, &'static str, &str) = match what % 7 {
+            let (bytes, class, sig): (Vec<u8>, &'static str, &str) = match what % 9 {
+                7 | 8 => { // a part without headers that comes after one (7) or after all (8) regular parts
+                    let regular = to_parts(parts);
+                    let k = if what % 9 == 7 { 1 } else { regular.len() };
+                    let mut v: Vec<u8> = vec![];
+                    let push_part = |v: &mut Vec<u8>, p: &Part| { v.extend_from_slice(boundary.as_bytes()); v.extend_from_slice(b"\r\n"); for h in &p.headers { v.extend_from_slice(format!("{}: {}\r\n", h.name, h.value).as_bytes()); } v.extend_from_slice(b"\r\n"); v.extend_from_slice(&p.body); v.extend_from_slice(b"\r\n"); };
+                    for p in regular.iter().take(k) { push_part(&mut v, p); }
+                    v.extend_from_slice(boundary.as_bytes()); v.extend_from_slice(b"\r\n\r\nbody of a part without headers\r\n");
+                    for p in regular.iter().skip(k) { push_part(&mut v, p); }
+                    v.extend_from_slice(boundary.as_bytes());
+                    (v, "part-without-headers-after-regular-parts", "part-without-headers-accepted") }
                 5 | 6 => { // every strict prefix lacks the closing delimiter: cut anywhere (inside a delimiter line, a header line, the blank line, a body)
                     let k = crate::fw::util::pick_idx(*cut, full.len());
                     let p = &full[..k];
@@ -297,7 +307,7 @@ pub fn run(ctx: &Ctx) {
     ctx.prop("browser", ctx.share(ctx.scale(12_000, 500_000)), (parts_strategy(max_body), boundary_strategy(), prop_oneof![3 => Just(0u8), 1 => 1u8..4]).prop_map(|(parts, boundary, sep)| Case::Browser { parts, boundary, sep }), |c| eval(ctx, c));
     // near-miss delimiter lines inside bodies (the dash-insensitive match of earlier versions; any non-exact delimiter test)
     ctx.prop("decoys", ctx.share(ctx.scale(12_000, 500_000)), (parts_strategy(128), boundary_strategy(), decoy_strategy(), any::<bool>()).prop_map(|(parts, boundary, d, browser)| { let parts = with_decoys(parts, &boundary, &d); if browser { Case::Browser { parts, boundary, sep: 0 } } else { Case::RoundTrip { parts, boundary } } }), |c| eval(ctx, c));
-    ctx.prop("negatives", ctx.share(ctx.scale(12_000, 500_000)), (parts_strategy(256), boundary_strategy(), 0u8..7, any::<u16>()).prop_map(|(parts, boundary, what, cut)| Case::Negative { parts, boundary, what, cut }), |c| eval(ctx, c));
+    ctx.prop("negatives", ctx.share(ctx.scale(12_000, 500_000)), (parts_strategy(256), boundary_strategy(), 0u8..9, any::<u16>()).prop_map(|(parts, boundary, what, cut)| Case::Negative { parts, boundary, what, cut }), |c| eval(ctx, c));
     let fields = proptest::collection::vec(("[a-z]{1,8}", "[!-~]([ -~]{0,20}[!-~])?|"), 1..6);
     ctx.prop("echo", ctx.share(ctx.scale(6_000, 200_000)), (fields, "[A-Za-z0-9]{1,30}").prop_map(|(fields, boundary)| Case::Echo { fields, boundary }), |c| eval(ctx, c));
     // saved corpus of the coverage-guided campaigns (corpus/c16/*.pack), decoded like the fuzz target does
